@@ -16,7 +16,7 @@ from .. import core, gapspace as g, obs
 
 ALPHA = ["{", "}", "[", "]", "(", ")", ";", ",", ":", "@", "=", ".", "?", "!", "-", "+", "++", "//", "let", "in", "if", "then", "else", "with", "assert", "rec", "inherit", "or", "x", "1", '"s"', "''s''", "./p", "# c\n", "/*c*/", "${"]
 INSERT = ["{", "}", "[", "]", "(", ")", ";", ",", ":", "@", "=", ".", "?", "!", "-", "++", "let", "in", "if", "then", "else", "with", "assert", "rec", "inherit", "or", "x", '"', "''", "${", "/*"]
-WRAPS = [("", ""), ("\n", ""), ("  ", "  "), ("\t\n", "\n\n")]
+WRAPS = [("", ""), ("\n", ""), ("  ", "  "), ("\t\n", "\n\n"), ("\r\n ", " \r\n")]
 VALID_DOC = "{ b = 2; }\n"
 
 
@@ -104,6 +104,22 @@ def judge(text: str, prop: str, full: bool = True):
     if not src.contains_error:
         out.append(("error-not-flagged", f"{text!r}: tree-sitter reports ERROR/MISSING but contains_error is False"))
     if full:
+        # the same through parse_file (bytes written exactly as given)
+        import os, tempfile
+        from nix_manipulator import parse_file
+
+        fd, path = tempfile.mkstemp(suffix=".nix", prefix="nixmc-c07-")
+        try:
+            os.write(fd, text.encode("utf-8"))
+            os.close(fd)
+            try:
+                rf = parse_file(path).rebuild()
+                if rf != text:
+                    out.append(("parse_file-pass-through-changed", f"file holding {text!r} -> parse_file(...).rebuild() {rf!r}"))
+            except Exception as e:
+                out.append(("parse_file-raises:" + type(e).__name__, f"file holding {text!r}"))
+        finally:
+            os.unlink(path)
         so, rc = _main_test(text)
         if so != "Fail\n" or rc != 1:
             out.append(("test-verdict", f"nima test on {text!r}: stdout {so!r} exit {rc!r}, expected 'Fail\\n' / 1"))
